@@ -33,7 +33,7 @@ import (
 // Script: the n-th CheckHealth() call of a host answers per letter
 //
 //	S F   success / failure at once
-//	a b   success / failure after timeout/2 (slow, in time)
+//	a b   success / failure after timeout/2 (slow, in time; b is not in the enumerated alphabets)
 //	s f   success / failure after exactly the timeout (same deadline as the
 //	      timeout timer: both orders are explored)
 //	H h   hangs until Session.OnTimeout() is called (the loop has handled the
@@ -50,7 +50,10 @@ import (
 //
 // Oracles, evaluated on the event log of each execution:
 //
-//	(1) rounds: between the start of check n and the start of check n+1 exactly
+//	(1) rounds: a check begins where OnCheck counts its attempt (the increment
+//	    of the attempt counter precedes the arming of the timeout; CheckHealth is
+//	    reached at the same instant unless the thread is delayed). Between the
+//	    beginning of check n and the beginning of check n+1 exactly
 //	    one outcome is counted for check n: either its result (a callback whose
 //	    isHealthy equals what CheckHealth returned, after it returned) or a
 //	    timeout (Session.OnTimeout then a failure callback, not before the
@@ -534,9 +537,15 @@ func (x *c16lExec) judge(r *vrt.Result, outcome *strings.Builder) []c16lFinding 
 				wantNew = 1 // unless Stop came first: then 0 or 1
 			}
 		}
+		hasStop := false
+		for _, op := range c.Env {
+			if op.Kind == "stop" {
+				hasStop = true
+			}
+		}
 		if nNew > 1 {
 			add("sessions: more than one health check session created for one host", fmt.Sprintf("%s: %d sessions", where, nNew))
-		} else if nNew == 0 && wantNew == 1 && hi < c.Hosts {
+		} else if nNew == 0 && wantNew == 1 && (hi < c.Hosts || !hasStop) {
 			add("sessions: no health check session created for a host of the set", where)
 		}
 		// automaton
@@ -979,8 +988,9 @@ func TestVerifLoopC16(t *testing.T) {
 	p.Note("scenarios_cut_by_max_execs", capped)
 	k := vreport.Pick(4, 6)
 	p.End(complete && capped == 0,
-		fmt.Sprintf("layer A: 1 host, thresholds {1,2,3}^2 x initial state x (timeout,interval) in {(4,8),(4,4),(8,4)} x scripts of %d rounds, all schedules without preemption (tie orders of equal-deadline timers included); layer B: environment threads (Stop, host added/removed, outlier condition set/cleared) at chosen instants, preemption bound %d, capped per scenario by MaxExecs (deterministic DFS order)", k, vreport.Pick(2, 3)),
-		"one evaluation = one complete execution of the real loop under the scheduler; distinct = (scenario, sequence of counted outcomes and transitions); outcome = sequence of counted outcomes/transitions per host")
+		fmt.Sprintf("A1: 1 host, every script over {S,F,H,s}^%d x thresholds {1,2,3}^2 x initial state x (timeout,interval) in {(4,8),(4,4),(8,4)}, all schedules without preemption (both orders of equal-deadline timers); A2: every script over {S,F,a,H,h,s,f,N,M,L}^%d x thresholds {(1,1),(2,2),(2,3),(3,2)} x initial state x the 3 timings, same schedules; B1: %d scripts x timings, no environment thread, preemption bound %d; B2: Stop / outlier condition (thorough: both) at every %s instant of the first two rounds, preemption bound 1%s; B3: host added / removed (with Start() after the set was installed, outlier thread, thorough: +Stop, +second change) at every %s instant, delay bound 1%s; B layers capped per scenario by MaxExecs in deterministic DFS order (%d scenarios cut)",
+			k, vreport.Pick(3, 4), len(c16lPool()), vreport.Pick(2, 3), map[bool]string{false: "2nd", true: ""}[vreport.Thorough()], map[bool]string{false: " (+4 scenarios at bound 2)", true: " complete-or-capped then bound 2 capped"}[vreport.Thorough()], map[bool]string{false: "4th", true: ""}[vreport.Thorough()], map[bool]string{false: "", true: " then 2 capped"}[vreport.Thorough()], capped),
+		"one evaluation = one complete execution of the real loop under the scheduler (k rounds, Stop, quiescence); distinct = (scenario, sequence of counted outcomes and transitions per host); outcome = that sequence")
 }
 
 // c16lInstrumented: the rewrite set replaces utils.Timer by the virtual one; without it the
@@ -1059,10 +1069,7 @@ func c16lCases() []c16lCase {
 			}
 		}
 	}
-	pool := []string{"SFSF", "HsaL", "FFSS", "sHfS"}
-	if thorough {
-		pool = []string{"SFSFSF", "HsaLaS", "FFSSFF", "sHfSHs", "SSSSSS", "hLaFSa"}
-	}
+	pool := c16lPool()
 	// layer B1: one host, no environment thread, preemption-bounded
 	if want("B1") {
 		bcfgs := cfgs
@@ -1091,11 +1098,21 @@ func c16lCases() []c16lCase {
 					}
 					for _, env := range envs {
 						for _, iu := range []bool{false, true}[:vreport.Pick(1, 2)] {
-							out = append(out, c16lCase{Layer: "B2", U: 2, H: 1, InitUnhealthy: iu, Timeout: cf[0], Interval: cf[1], Scripts: []string{sc}, Hosts: 1, Rounds: k, Env: env, Bound: vreport.Pick(1, 2), MaxExecs: vreport.Pick(600, 6000)})
+							// complete (or nearly) at the lower bound first, then the capped deeper search
+							out = append(out, c16lCase{Layer: "B2", U: 2, H: 1, InitUnhealthy: iu, Timeout: cf[0], Interval: cf[1], Scripts: []string{sc}, Hosts: 1, Rounds: k, Env: env, Bound: 1, MaxExecs: vreport.Pick(600, 3000)})
+							if thorough {
+								out = append(out, c16lCase{Layer: "B2", U: 2, H: 1, InitUnhealthy: iu, Timeout: cf[0], Interval: cf[1], Scripts: []string{sc}, Hosts: 1, Rounds: k, Env: env, Bound: 2, MaxExecs: 1200})
+							}
 						}
 					}
 				}
 			}
+		}
+	}
+	if want("B2") && !thorough {
+		for _, at := range []int{c16lInitial, c16lInitial + 4} {
+			out = append(out, c16lCase{Layer: "B2", U: 2, H: 1, Timeout: 4, Interval: 8, Scripts: []string{pool[1]}, Hosts: 1, Rounds: k, Env: []c16lEnvOp{{Kind: "stop", At: at}}, Bound: 2, MaxExecs: 1500})
+			out = append(out, c16lCase{Layer: "B2", U: 2, H: 1, Timeout: 4, Interval: 8, Scripts: []string{pool[1]}, Hosts: 1, Rounds: k, Env: []c16lEnvOp{{Kind: "outlier", At: at, Len: 3}}, Bound: 2, MaxExecs: 1500})
 		}
 	}
 	// layer B3: host set changes while checks run (delay-bounded: two sessions make the non-preemptive
@@ -1121,10 +1138,20 @@ func c16lCases() []c16lCase {
 						v{1, []c16lEnvOp{{Kind: "add", At: at, Host: 1}, {Kind: "remove", At: at + 6, Host: 0}}})
 				}
 				for _, x := range vs {
-					out = append(out, c16lCase{Layer: "B3", U: 2, H: 2, Timeout: cf[0], Interval: cf[1], Scripts: []string{sc, "FSFS"}, Hosts: x.hosts, CallStart: true, Rounds: k, Env: x.env, Bound: vreport.Pick(1, 2), Delay: true, MaxExecs: vreport.Pick(400, 8000)})
+					out = append(out, c16lCase{Layer: "B3", U: 2, H: 2, Timeout: cf[0], Interval: cf[1], Scripts: []string{sc, "FSFS"}, Hosts: x.hosts, CallStart: true, Rounds: k, Env: x.env, Bound: 1, Delay: true, MaxExecs: vreport.Pick(400, 3000)})
+					if thorough {
+						out = append(out, c16lCase{Layer: "B3", U: 2, H: 2, Timeout: cf[0], Interval: cf[1], Scripts: []string{sc, "FSFS"}, Hosts: x.hosts, CallStart: true, Rounds: k, Env: x.env, Bound: 2, Delay: true, MaxExecs: 2200})
+					}
 				}
 			}
 		}
 	}
 	return out
+}
+
+func c16lPool() []string {
+	if vreport.Thorough() {
+		return []string{"SFSFSF", "HsaLaS", "FFSSFF", "sHfSHs", "SSSSSS", "hLaFSa"}
+	}
+	return []string{"SFSF", "HsaL", "FFSS", "sHfS"}
 }
